@@ -72,3 +72,15 @@ package band
 //@   loop 0: step keep: forall j int :: 0 <= j && j < 5 && j != prev(i) ==> pl.Channels[j] == prev(pl.Channels[j])
 //@   loop 0: modifies pl.Channels, c
 //@   loop 0: decreases len(b.uplinkChannels) - rangeindex
+
+// ---------------------------------------------------------------------------
+// C14 (helpers of the LinkADRReq planner only): membership and symmetric difference
+// ---------------------------------------------------------------------------
+//@ func channelIsActive
+//@   props C14
+//@   modifies nothing
+//@   ensures C14/member-complete: forall j int :: 0 <= j && j < len(channels) ==> (channels[j] == i ==> result)
+//@   ensures C14/member-sound: result ==> !(forall j int :: 0 <= j && j < len(channels) ==> channels[j] != i)
+//@   loop 0: invariant idx: rangeindex >= 0 - 1 && rangeindex < len(channels)
+//@   loop 0: invariant none-so-far: forall j int :: 0 <= j && j <= rangeindex ==> channels[j] != i
+//@   loop 0: decreases len(channels) - rangeindex
